@@ -525,7 +525,7 @@ func (c *Ctx) c33CheckWriteFile(info *types.Info, fd *ast.FuncDecl) {
 		rk := strings.Replace(key, ":reader:", ":result:", 1)
 		if _, ok := par.(*ast.ReturnStmt); ok {
 			c.OK(R, rk, call.Pos(), "writer's error returned")
-		} else if c33ReturnedNext(info, st, call) {
+		} else if c33ReturnedNext(info, st, call) || c33CheckedAndReturned(info, st, call) { // c33x.go: `if err := fn(…); err != nil { return err }`
 			c.OK(R, rk, call.Pos(), "writer's error stored in a local that the next statement returns")
 		} else {
 			c.Viol(R, rk, call.Pos(), "the writer's error is not returned by writeFile (%s): a failed write is reported as success", c.src(par))
